@@ -19,7 +19,7 @@ VARIABLES l, nv, nchk
 vars == <<l, nv, nchk>>
 
 (* An event takes part only if the formatter accepted the input. *)
-Applicable(e) == (e.ev \in {"fmt", "imp", "off", "unit"} /\ e.outcome = "ok") \/ e.ev = "range"
+Applicable(e) == (e.ev \in {"fmt", "imp", "off", "unit"} /\ e.outcome = "ok") \/ e.ev \in {"range", "fe", "obs"}
 
 Holds(r, e) ==
   CASE r = "R01" -> ~e.oerr /\ R01(e)
@@ -34,6 +34,8 @@ Holds(r, e) ==
     [] r = "R12b" -> R12b(e)
     [] r = "R19" -> R19(e)
     [] r = "R07" -> e.oerr \/ R07(e)
+    [] r = "R16" -> R16(e)
+    [] r = "R02" -> R02(e)
     [] r = "R13NoPanic" -> R13NoPanic(e)
     [] r = "R13Cover" -> R13Cover(e)
     [] r = "R13Refuse" -> R13Refuse(e)
@@ -41,7 +43,9 @@ Holds(r, e) ==
 
 (* which relations speak about which kind of event *)
 R13s == {"R13NoPanic", "R13Cover", "R13Refuse", "R13Splice"}
-RelsOf(e) == CASE e.ev = "fmt" -> Rels \ ({"R12b", "R19", "R07"} \cup R13s)
+RelsOf(e) == CASE e.ev = "fmt" -> Rels \ ({"R12b", "R19", "R07", "R16", "R02"} \cup R13s)
+               [] e.ev = "fe" -> Rels \cap {"R16"}
+               [] e.ev = "obs" -> Rels \cap {"R02"}
                [] e.ev = "range" -> Rels \cap R13s
                [] e.ev = "unit" -> Rels \cap {"R12b"}
                [] e.ev = "imp" -> Rels \cap {"R19"}
@@ -49,8 +53,10 @@ RelsOf(e) == CASE e.ev = "fmt" -> Rels \ ({"R12b", "R19", "R07"} \cup R13s)
                [] OTHER -> {}
 Failing(e) == IF Applicable(e) THEN {r \in RelsOf(e) : ~Holds(r, e)} ELSE {}
 
-WidthOf(e) == IF e.ev = "range" THEN e.w ELSE e.ws[1]
-Extra(e) == IF e.ev = "range" THEN [s |-> e.reqs[1].s, e |-> e.reqs[1].e, outcome |-> e.outcome] ELSE [s |-> 0, e |-> 0, outcome |-> "ok"]
+WidthOf(e) == IF e.ev \in {"range", "fe", "obs"} THEN e.w ELSE e.ws[1]
+Extra(e) == IF e.ev = "range" THEN [s |-> e.reqs[1].s, e |-> e.reqs[1].e, outcome |-> e.outcome]
+            ELSE IF e.ev = "fe" THEN [s |-> 0, e |-> 0, outcome |-> e.fe]
+            ELSE [s |-> 0, e |-> 0, outcome |-> "ok"]
 Report(e, f) == \A r \in f : PrintT(<<"VIOL", ToJson([r |-> r, id |-> e.id, sha |-> e.sha, tab |-> e.tab,
                                                        bl |-> e.bl, ro |-> e.ro, w |-> WidthOf(e), x |-> Extra(e)])>>)
 
